@@ -1,0 +1,48 @@
+//go:build verif
+
+package bytesfilter
+
+// Contracts for BytesFilter (property C12: remembers exactly the last N distinct identifiers), read by the verification
+// machinery in /verif. Comment-only file. K abbreviates b.knownIdentifiers.m (the ShrinkingMap is verified in
+// ds/shrinkingmap); ids abbreviates b.identifiers (oldest first). Identifiers are an uninterpreted sort (the code never looks inside them).
+
+/*@
+type BytesFilter
+  monitor mutex guards identifiers
+
+-- addIdentifier: a known identifier changes nothing; a new one is appended - and when the filter is full, the oldest one
+-- is forgotten: its place in the list goes, and it leaves the set of known identifiers
+func BytesFilter.addIdentifier
+  opt sequential
+  requires b != nil && b.knownIdentifiers != nil && b.knownIdentifiers.opts != nil && unlocked(b.knownIdentifiers.mutex) && held(b.mutex)
+  requires b.size >= 1 && len(b.identifiers) <= b.size
+  modifies b.identifiers, allelems(IdentifierType), b.knownIdentifiers.m, b.knownIdentifiers.deletedKeys, allmaps(b.knownIdentifiers.m)
+  ensures held(b.mutex)
+  ensures added <==> !old(has(b.knownIdentifiers.m, identifier))
+  ensures has(b.knownIdentifiers.m, identifier)
+  ensures !added ==> b.identifiers == old(b.identifiers) && (forall k IdentifierType :: has(b.knownIdentifiers.m, k) <==> old(has(b.knownIdentifiers.m, k)))
+  ensures len(b.identifiers) <= b.size
+  -- room left: appended, nothing forgotten
+  ensures added && old(len(b.identifiers)) < b.size ==> len(b.identifiers) == old(len(b.identifiers)) + 1 && b.identifiers[old(len(b.identifiers))] == identifier
+  ensures added && old(len(b.identifiers)) < b.size ==> forall k IdentifierType :: k != identifier ==> (has(b.knownIdentifiers.m, k) <==> old(has(b.knownIdentifiers.m, k)))
+  -- full: the oldest identifier is forgotten, the new one is the youngest
+  ensures added && old(len(b.identifiers)) == b.size ==> len(b.identifiers) == b.size && b.identifiers[b.size - 1] == identifier
+  ensures added && old(len(b.identifiers)) == b.size ==> forall k IdentifierType :: k != identifier && k != old(b.identifiers[0]) ==> (has(b.knownIdentifiers.m, k) <==> old(has(b.knownIdentifiers.m, k)))
+  ensures added && old(len(b.identifiers)) == b.size && old(b.identifiers[0]) != identifier ==> !has(b.knownIdentifiers.m, old(b.identifiers[0]))
+
+func BytesFilter.AddIdentifier
+  opt sequential
+  requires b != nil && b.knownIdentifiers != nil && b.knownIdentifiers.opts != nil && unlocked(b.knownIdentifiers.mutex) && unlocked(b.mutex)
+  requires b.size >= 1 && len(b.identifiers) <= b.size
+  modifies b.identifiers, allelems(IdentifierType), b.knownIdentifiers.m, b.knownIdentifiers.deletedKeys, allmaps(b.knownIdentifiers.m)
+  ensures unlocked(b.mutex)
+  ensures added <==> !old(has(b.knownIdentifiers.m, identifier))
+  ensures has(b.knownIdentifiers.m, identifier) && len(b.identifiers) <= b.size
+
+func BytesFilter.ContainsIdentifier
+  opt sequential
+  requires b != nil && b.knownIdentifiers != nil && unlocked(b.knownIdentifiers.mutex) && unlocked(b.mutex)
+  modifies nothing
+  ensures unlocked(b.mutex)
+  ensures exists <==> has(b.knownIdentifiers.m, identifier)
+@*/
